@@ -119,6 +119,16 @@ class Loader:
             _LOGGER.info('adding bucket to cell: %s', bucketname)
             self.cell.add_node(self.buckets[bucketname])
 
+        # Servers that are no longer part of the cell can not hold apps.
+        members = self.cell.members()
+        for servername, server in six.iteritems(self.servers):
+            if servername not in members:
+                for appname in server.apps:
+                    self.backend.delete(
+                        z.path.placement(servername, appname)
+                    )
+                server.remove_all()
+
     def load_partitions(self):
         """Load partitions."""
         # Create default partition.
@@ -515,7 +525,11 @@ class Loader:
         """Restore placements after reload."""
         integrity = collections.defaultdict(list)
 
+        members = self.cell.members()
         for servername in self.servers:
+            if servername not in members:
+                # Server is not part of the cell, nothing can be placed on it.
+                continue
             _placed_apps, restored_apps = self.restore_placement(servername)
             for appname in restored_apps:
                 integrity[appname].append(servername)
